@@ -30,6 +30,25 @@ def run(ctx):
         lib = build.build_lib(be, extra=["-U__linux__", "-U__linux", "-Ulinux", "-U__unix__", "-U__unix", "-Uunix", "-w"], tag="none")
         ctx.configs.append(lib["desc"] + " no known random source")
         jobs.append((build.build_prog("c15_none", ["harness/c15_none.c"], lib, opt="-O1"), [], be + "-no-known-source"))
+    # the system-source drivers of the other platforms, compiled for this host against stand-in platform headers with a scripted source behind them
+    import os
+    UNIX = ["-U__linux__", "-U__linux", "-Ulinux", "-U__unix__", "-U__unix", "-Uunix", "-w"]
+    DRIVERS = [("due", "ascon-trng-due.c", ["-D__arm__", "-D__SAM3X8E__", "-DARDUINO", "-DASCON_FORCE_C64"], "due"),
+               ("esp", "ascon-trng-esp.c", ["-DESP32"], "esp"),
+               ("stm32", "ascon-trng-stm32.c", ["-DUSE_HAL_DRIVER", "-DSTM32F407xx"], "stm32"),
+               ("windows", "ascon-trng-windows.c", ["-D_WIN32", "-DASCON_FORCE_C64"], "windows"),
+               ("zephyr-csrand", "ascon-trng-zephyr.c", ["-D__zephyr__", "-DCONFIG_CTR_DRBG_CSPRNG_GENERATOR", "-DASCON_FORCE_C64"], "zephyr"),
+               ("zephyr-bt", "ascon-trng-zephyr.c", ["-D__zephyr__", "-DCONFIG_BT", "-DASCON_FORCE_C64"], "zephyr")]
+    dlib = build.build_lib("asm", omit=("ascon-trng-dev-random.c",))
+    for name, src, defs, stub in DRIVERS:
+        try:
+            sp = os.path.join(build.REPO, "src", "random", src)
+            flags = UNIX + defs + ["-I" + os.path.join(common.VERIF, "harness", "stubs", stub), "-I" + os.path.join(build.REPO, "src", "random"), "-DVP_DRIVER_" + name.replace("-", "_")]
+            exe = build.build_prog("c15_drivers_" + name, ["harness/c15_drivers.c", sp], dlib, opt="-O1", per_source_extra={src: flags}, cfg_dep=True)
+            jobs.append((exe, [name], "driver"))
+            ctx.configs.append("system-source driver %s on stand-in headers" % name)
+        except build.BuildError as e:
+            ctx.fail("build-error:driver-" + name, str(e)[-600:])
     common.parallel(lambda j: common.run_harness(ctx, j[0], j[1], label=j[2]), jobs)
     ctx.assumptions += [
         "the system source is libc getrandom() -- in further configurations getentropy(), syscall(SYS_getrandom) and the /dev/urandom device (descriptor 100 and descriptor 0) -- defined by the harness (scripted tape, per-call failure plan); the library's own ascon-trng-dev-random.c stays in place",
